@@ -3,6 +3,9 @@ P = "dulwich/pack.py"
 F19 = "dulwich/protocol.py"
 IX = "dulwich/index.py"
 BOUNDED = {
+    "C04": [
+        {"name": "c04_hostile", "script": "c04_hostile.py", "args": [], "timeout": 3000},
+    ],
     "C20": [
         {"name": "c20_roundtrip", "script": "c20_roundtrip.py", "args": []},
     ],
